@@ -103,6 +103,36 @@ def watermark_regressions(f, g, rd, loops):
           monotone = True
       if not monotone:
         out.append((loop, v, n))
+    # second shape: a list of merged blocks whose last block is extended in place,
+    #   first, last = blocks[-1] ... if elem.first_day <= last (+ step): blocks[-1] = (first, elem.last_day)
+    # the new end must be max(last, elem.last_day): a window nested in the block otherwise pulls the end back
+    for n in body:
+      if not (n.kind == 'stmt' and isinstance(n.ast, ast.Assign) and len(n.ast.targets) == 1 and isinstance(n.ast.targets[0], ast.Subscript)):
+        continue
+      tgt, val = n.ast.targets[0], n.ast.value
+      if not (isinstance(val, (ast.Tuple, ast.List)) and len(val.elts) == 2 and isinstance(tgt.value, ast.Name)):
+        continue
+      blocks = tgt.value.id
+      # names unpacked from the same element of the block list on the way to this store
+      olds = [d for nm in {x.id for x in ast.walk(val.elts[0]) if isinstance(x, ast.Name)} for d in rd.defs_at(n, nm)
+              if d.how == 'unpack' and d.value is not None and norm(d.value) == norm(ast.Subscript(value=tgt.value, slice=tgt.slice, ctx=ast.Load()))]
+      if not olds:
+        continue
+      old_end_names = {d2.name for nd in {d.node for d in olds} for d2 in rd.gen.get(nd, ()) if d2.how == 'unpack' and d2.index == 1}
+      end = val.elts[1]
+      from_elem = any(isinstance(x, ast.Name) and x.id in elem for x in ast.walk(end))
+      uses_old = any(isinstance(x, ast.Name) and x.id in old_end_names for x in ast.walk(end))
+      is_max = isinstance(end, ast.Call) and norm(end.func) in ('max', 'np.maximum') and uses_old
+      guarded = False
+      par = getattr(n.ast, '_parent', None)
+      while par is not None and par is not loop.ast:
+        if isinstance(par, ast.If) and isinstance(par.test, ast.Compare) and any(isinstance(x, ast.Name) and x.id in old_end_names for x in ast.walk(par.test)) \
+            and any('last_day' in norm(x) or 'end' in norm(x).lower() for x in [par.test.left] + list(par.test.comparators) if any(isinstance(y, ast.Name) and y.id in elem for y in ast.walk(x))) \
+            and not any('first_day' in norm(x) for x in [par.test.left] + list(par.test.comparators)):
+          guarded = True        # `if elem.last_day > last:` guards the extension
+        par = getattr(par, '_parent', None)
+      if from_elem and not is_max and not guarded and old_end_names:
+        out.append((loop, '%s[%s]' % (blocks, norm(tgt.slice)), n))
   return out
 
 
